@@ -116,7 +116,11 @@ def crashLine (w : World) (name : String) (k t : Nat) (go : Bool) : World × Str
         let idx := probeIndices (max curLen h.prevLen)
         let s := probeCore c d1 idx
         let w' := if go then w.set name { h with core := some c, disk := d1, subs := 0, lastJournal := [], prevDisk := d1, prevLen := c.tree.length } else w
-        (w', shorten s)
+        -- a further reopen of the recovered store
+        let again := match openOn d1 none with
+          | .error _ => "differs"
+          | .ok (c2, jo2) => if probeCore c2 (d1.applyAll jo2) idx == s then "same" else "differs"
+        (w', s!"{shorten s} oj={jTxt jo} re={again}")
 
 /-- first position at which `needle` occurs in `hay` -/
 def findSub (hay needle : Bytes) : Option Nat :=
